@@ -257,6 +257,18 @@ def union_call_templates():
                   ("fndecl", "fb", [("s", B_)], INT, [("set", "t", V("s")), ("return", I(2))]),
                   ("fndecl", "pick", [("c", BOOL)], fu, [("if", V("c"), ("block", [("return", V("fa"))]), None), ("return", V("fb"))]),
                   ("set", "h", ("call", V("pick"), [("false",)])), ("call", V("h"), [xa])])
+        # the same with the picked member USING its parameter at its own type (what goes wrong at run time if the call is accepted)
+        use = {repr(STR): ("bin", "add", V("s"), S("x")), repr(arr(STR)): ("bin", "add", ("at", V("s"), I(0)), S("x")),
+               repr(tup(INT, STR)): ("bin", "add", ("tacc", V("s"), 1), S("x")), repr(SB): ("bin", "add", ("facc", V("s"), "b"), I(1)),
+               repr(("struct", (("a", STR),))): ("bin", "add", ("facc", V("s"), "a"), S("x")),
+               repr(cell(multi(INT, FLOAT))): ("assign", "set", V("s"), F(2.5))}.get(repr(B_))
+        if use is not None:
+            pre = [("set", "arg", xa)]
+            after = [("bin", "add", ("pre", "deref", V("arg")), I(1))] if B_[0] == "cell" else [V("r")]
+            T.append(pre + [("fndecl", "fa", [("s", A_)], INT, [("return", I(1))]),
+                            ("fndecl", "fb", [("s", B_)], INT, [("set", "t", use), ("return", I(2))]),
+                            ("fndecl", "pick", [("c", BOOL)], fu, [("if", V("c"), ("block", [("return", V("fa"))]), None), ("return", V("fb"))]),
+                            ("set", "h", ("call", V("pick"), [("false",)])), ("set", "r", ("call", V("h"), [V("arg")]))] + after)
         cu = multi(cell(A_), cell(B_))
         T.append([("set", "ca", ("mut", A_, xa)), ("set", "cb", ("mut", B_, xb)),
                   ("fndecl", "pick", [("c", BOOL)], cu, [("if", V("c"), ("block", [("return", V("ca"))]), None), ("return", V("cb"))]),
